@@ -55,6 +55,10 @@ Eval(q) ==
            merge |-> M.v = F.v /\ M.ld = F.ld,
            invsw |-> V.v = I.v /\ V.ld = I.ld]
 
+\* The exhaustive depth-2 run (thorough tier) keeps to the core leaves and wraps: the later additions (triangular leaves,
+\* wrapped starting points, strided slices, vectorised conditional leaves, rank-mismatch invalid compositions) multiply its
+\* 1.8e5 programs several times over; they are exhausted at depth 1 and sampled at depth 3.
+Rich == MaxDepth # 2
 \* ---- the builder machine -------------------------------------------------------------------------------------------
 Size(q) == IF Valid(q) THEN Prod(SemShape(q)) ELSE 0      \* (the shape of an invalid composition is undefined)
 LeafKinds == {"aff", "cadd", "cadd0", "perm", "flip", "ident", "scan", "tril", "triu"}
@@ -68,8 +72,8 @@ MkLeaf(kind, id, s) ==
 WrappedLeaf(s) == {[k |-> "reshape", p |-> MkLeaf("aff", 1, <<Prod(s)>>), shape |-> s, cs |-> None],
                    [k |-> "invert", p |-> MkLeaf("aff", 1, s)],
                    [k |-> "partial", p |-> MkLeaf("aff", 1, s), shape |-> <<2>> \o s, idx |-> [kind |-> "int", i |-> 1]]}
-Init == /\ \/ \E kind \in LeafKinds, s \in Shapes : (kind \in {"tril", "triu"} => Len(s) = 1) /\ p = MkLeaf(kind, 1, s)
-           \/ \E s \in Shapes : Len(s) # 1 /\ p \in WrappedLeaf(s)
+Init == /\ \/ \E kind \in LeafKinds, s \in Shapes : (kind \in {"tril", "triu"} => Rich /\ Len(s) = 1) /\ p = MkLeaf(kind, 1, s)
+           \/ \E s \in Shapes : Rich /\ Len(s) # 1 /\ p \in WrappedLeaf(s)
         /\ depth = 0 /\ res = Eval(p)
 
 CanWrap == depth < MaxDepth /\ res.valid
@@ -77,7 +81,7 @@ FreshId == 2 + 3 * depth
 Wrap(q) == Size(q) <= MaxSize /\ p' = q /\ depth' = depth + 1 /\ res' = Eval(q)
 Ranks(s) == Len(s)
 OtherLeaf(s) == {MkLeaf("aff", FreshId, s), MkLeaf("perm", FreshId, s)}
-   \cup (IF Len(s) = 1 THEN {MkLeaf("triu", FreshId, s)} ELSE {})
+   \cup (IF Rich /\ Len(s) = 1 THEN {MkLeaf("triu", FreshId, s)} ELSE {})
    \cup (IF SemCond(p) = None THEN {[k |-> "cadd", id |-> FreshId, shape |-> s, cs |-> <<2>>]}
          ELSE {[k |-> "cadd", id |-> FreshId, shape |-> s, cs |-> SemCond(p)]})
 
@@ -94,7 +98,7 @@ WChainOfInverted == /\ CanWrap /\ p.k = "chain"
 WVmap == /\ CanWrap
          /\ \E n \in {2, 3}, cax \in {-9, 0, 1, -1, -2} :
               /\ (cax # -9 => SemCond(p) # None /\ cax < Len(SemCond(p)) + 1 /\ -(Len(SemCond(p)) + 1) <= cax)
-              /\ \E mapped \in (IF p.k \in {"aff", "cadd"} THEN BOOLEAN ELSE {FALSE}) :   \* cadd: parameters AND the condition vectorised
+              /\ \E mapped \in (IF p.k = "aff" \/ (Rich /\ p.k = "cadd") THEN BOOLEAN ELSE {FALSE}) :   \* cadd: parameters AND the condition vectorised
                    Wrap([k |-> "vmap", p |-> p, n |-> n, mapped |-> mapped, cax |-> cax])
 WStack == /\ CanWrap
           /\ \E axis \in -(Len(SemShape(p)) + 1)..Len(SemShape(p)), o \in OtherLeaf(SemShape(p)), three \in BOOLEAN :
@@ -119,7 +123,7 @@ WPartial == /\ CanWrap
                \/ /\ Len(s) >= 1 /\ s[1] = 2
                   /\ Wrap([k |-> "partial", p |-> p, shape |-> ReplaceAt(s, 1, 3), idx |-> [kind |-> "boolarr", rows |-> <<0, 2>>]])
                \* slices with a step (-99 stands for None): x[0::2], x[::-2] (rows 2, 0), x[1::-1] (rows 1, 0 of 3), x[::2] of 4 with 2 rows
-               \/ /\ Len(s) >= 1 /\ s[1] = 2
+               \/ /\ Rich /\ Len(s) >= 1 /\ s[1] = 2
                   /\ \E sl \in {[lo |-> 0, hi |-> -99, step |-> 2, rows |-> <<0, 2>>, n |-> 3],
                                  [lo |-> -99, hi |-> -99, step |-> -2, rows |-> <<2, 0>>, n |-> 3],
                                  [lo |-> 1, hi |-> -99, step |-> -1, rows |-> <<1, 0>>, n |-> 3],
@@ -143,10 +147,10 @@ WInvalid == /\ depth < MaxDepth /\ res.valid
                   \/ (Len(s) >= 2 /\ Wrap([k |-> "concat", axis |-> 0, parts |-> <<p, MkLeaf("aff", FreshId, ReplaceAt(s, 2, s[2] + 1))>>]))
                   \* a part of lower RANK whose extents agree with the leading / trailing ones (a zip over the shapes, or an index
                   \* with a negative axis, would not notice)
-                  \/ (Len(s) >= 1 /\ \E low \in {SubSeq(s, 1, Len(s) - 1), Tail(s)}, first \in BOOLEAN :
+                  \/ (Rich /\ Len(s) >= 1 /\ \E low \in {SubSeq(s, 1, Len(s) - 1), Tail(s)}, first \in BOOLEAN :
                          \/ Wrap([k |-> "chain", parts |-> IF first THEN <<MkLeaf("aff", FreshId, low), p>> ELSE <<p, MkLeaf("aff", FreshId, low)>>])
                          \/ Wrap([k |-> "stack", axis |-> 0, parts |-> IF first THEN <<MkLeaf("aff", FreshId, low), p>> ELSE <<p, MkLeaf("aff", FreshId, low)>>]))
-                  \/ (Len(s) >= 2 /\ \E low \in {SubSeq(s, 1, Len(s) - 1), Tail(s)}, ax \in {-1, 0, 1} :
+                  \/ (Rich /\ Len(s) >= 2 /\ \E low \in {SubSeq(s, 1, Len(s) - 1), Tail(s)}, ax \in {-1, 0, 1} :
                          Wrap([k |-> "concat", axis |-> ax, parts |-> <<p, MkLeaf("aff", FreshId, low)>>]))
                   \/ Wrap([k |-> "partial", p |-> p, shape |-> <<2>> \o bad, idx |-> [kind |-> "int", i |-> 0]])
                   \/ Wrap([k |-> "reshape", p |-> p, shape |-> <<Size(p) + 1>>, cs |-> None])
